@@ -291,7 +291,8 @@ async fn read_loop(sock: Arc<UdpSocket>, conn: Arc<IceConn>, tap: Arc<Tap>, mut 
                     let mut b = tap.bypass.lock();
                     if let Some(i) = b.iter().position(|x| x == &pkt) { b.swap_remove(i); true } else { false }
                 };
-                if tap.record {
+                // injected datagrams are not kept (they are the bulk in a long replay); genuine traffic is
+                if tap.record && !injected {
                     tap.cap.lock().push(Cap { data: pkt.clone(), from });
                 }
                 let mut deliver = true;
@@ -1174,7 +1175,20 @@ fn allowed_has(exp: &Value, v: &Value) -> bool {
 
 async fn run_inject(edges_path: &str, out_path: &str) {
     let mut rng = Rng::from_env();
-    let edges = read_ndjson(edges_path);
+    // the edge list can be large (10^5..10^6 lines): keep the raw lines and parse an edge when it is used
+    let lines: Vec<String> = std::fs::read_to_string(edges_path)
+        .unwrap_or_else(|e| panic!("open {edges_path}: {e}"))
+        .lines()
+        .filter(|l| !l.trim().is_empty())
+        .map(|l| l.to_string())
+        .collect();
+    struct Edges(Vec<String>);
+    impl Edges {
+        fn get(&self, i: usize) -> Value {
+            serde_json::from_str(&self.0[i]).unwrap_or_else(|e| panic!("edge {i}: bad json: {e}"))
+        }
+    }
+    let edges = Edges(lines);
     let mut out = NdjsonOut::create(out_path);
     let certs = Certs {
         client: generate_certificate().expect("cert"),
@@ -1184,7 +1198,8 @@ async fn run_inject(edges_path: &str, out_path: &str) {
     // group by (role, history) keeping TLC's order inside a group
     let mut index: HashMap<String, usize> = HashMap::new();
     let mut groups: Vec<(String, Vec<usize>)> = Vec::new();
-    for (i, e) in edges.iter().enumerate() {
+    for i in 0..edges.0.len() {
+        let e = edges.get(i);
         let k = format!("{}|{}", e["role"].as_str().unwrap(), e["pre"]);
         match index.get(&k) {
             Some(g) => groups[*g].1.push(i),
@@ -1204,10 +1219,11 @@ async fn run_inject(edges_path: &str, out_path: &str) {
     let t_start = Instant::now();
     for (gi, (_, idxs)) in groups.into_iter().enumerate() {
         if progress {
+            let e0 = edges.get(idxs[0]);
             eprintln!("[{:7.1}s] group {} ({} edges) role={} pre={}", t_start.elapsed().as_secs_f64(), gi, idxs.len(),
-                edges[idxs[0]]["role"], edges[idxs[0]]["pre"].as_array().map(|a| a.iter().map(|s| format!("{}:{}>{}", s["rec"]["ct"].as_str().unwrap_or(""), s["rec"]["cls"].as_str().unwrap_or(""), s["to"].as_str().unwrap_or(""))).collect::<Vec<_>>().join(" ")).unwrap_or_default());
+                e0["role"], e0["pre"].as_array().map(|a| a.iter().map(|s| format!("{}:{}>{}", s["rec"]["ct"].as_str().unwrap_or(""), s["rec"]["cls"].as_str().unwrap_or(""), s["to"].as_str().unwrap_or(""))).collect::<Vec<_>>().join(" ")).unwrap_or_default());
         }
-        let first = &edges[idxs[0]];
+        let first = &edges.get(idxs[0]);
         let role = first["role"].as_str().unwrap().to_string();
         let target_is_client = role == "client";
         let pre: Vec<Value> = first["pre"].as_array().cloned().unwrap_or_default();
@@ -1220,7 +1236,7 @@ async fn run_inject(edges_path: &str, out_path: &str) {
             .get(&start_key)
             .map(|err| json!({"type": "tool", "error": format!("group setup failed: {err}"), "role": role, "phase": phase_s}));
         for i in idxs {
-            let e = &edges[i];
+            let e = &edges.get(i);
             let act = &e["act"];
             n_edges += 1;
             if let Some(why) = &group_dead {
